@@ -41,6 +41,7 @@ ALLOW = {
     "rename": "POSIX: thread-safe system call on caller-supplied paths",
     "fstat": "POSIX: thread-safe system call", "__fstat": "glibc alias of fstat", "fstat64": "glibc alias of fstat",
     "write": "POSIX: thread-safe system call on the object's own descriptor",
+    "writev": "POSIX: thread-safe system call on the object's own descriptor",
     "close": "POSIX: thread-safe system call on the object's own descriptor",
     "strlen": "pure", "memcpy": "pure on caller buffers", "memset": "pure on caller buffers", "memcmp": "pure", "memmove": "pure on caller buffers",
     "toupper": "reads the global locale only (no write)", "tolower": "reads the global locale only (no write)",
